@@ -130,6 +130,34 @@ Proof.
   - unfold op_meas in *.
     destruct (find_handle s h) as [[vi q]|]; auto. destruct (locate s q) as [[x r]|]; auto.
     destruct (measure _ _ _ _ _) as [[o n1] t1]. exfalso. eapply H. reflexivity.
+  - destruct (Nat.ltb _ _); auto. unfold op_newreg in *.
+    destruct (Nat.leb _ _); auto. exfalso. eapply H. reflexivity.
+  - destruct (Nat.ltb _ _); auto. unfold op_new_inreg in *.
+    destruct (negb _); auto. destruct (Nat.leb _ _); auto. destruct (find_reg _ _) as [r|]; auto.
+    destruct (Nat.leb _ _); auto. exfalso. eapply H. reflexivity.
+Qed.
+
+(* creation inside an existing register: the new handle next_hid is appended at node i, nothing else moves *)
+Lemma step_new_inreg_hn s i ow k v j : snd (step s (ONewInReg i ow k)) = Ok v ->
+  hn (nth_node (fst (step s (ONewInReg i ow k))) j) = (if Nat.eqb j i then hn (nth_node s i) ++ [next_hid s] else hn (nth_node s j))
+  /\ length (nodes (fst (step s (ONewInReg i ow k)))) = length (nodes s) /\ i < length (nodes s).
+Proof.
+  simpl. destruct (Nat.ltb_spec i (length (nodes s))) as [Hi|Hi]; [|discriminate].
+  unfold op_new_inreg. destruct (negb _); [discriminate|]. destruct (Nat.leb _ _); [discriminate|].
+  destruct (find_reg _ _) as [r|]; [|discriminate]. destruct (Nat.leb _ _); [discriminate|]. cbn [fst snd]. intros _.
+  split; [|split; [cbn [nodes]; apply upd_length|exact Hi]].
+  unfold nth_node at 1. cbn [nodes].
+  destruct (Nat.eqb_spec j i) as [E|N].
+  - subst j. rewrite nth_upd_eq by auto. unfold hn; simpl. rewrite map_app. reflexivity.
+  - rewrite nth_upd_neq by auto. reflexivity.
+Qed.
+
+(* creating a register: no handle list changes *)
+Lemma step_newreg_hn s i mq j :
+  hn (nth_node (fst (step s (ONewReg i mq))) j) = hn (nth_node s j) /\ length (nodes (fst (step s (ONewReg i mq)))) = length (nodes s).
+Proof.
+  simpl. destruct (Nat.ltb _ _); [|simpl; auto]. unfold op_newreg. destruct (Nat.leb _ _); [simpl; auto|]. cbn [fst].
+  split; [apply hn_set_same; reflexivity|apply length_set_node].
 Qed.
 
 (* creation: the new handle next_hid is appended at node i, nothing else moves *)
